@@ -5,6 +5,8 @@ def jobs(tier, parts=None):
         # partition by the opcode's high nibble: 1 = single-operand/RETI, 2,3 = jumps, 4..15 = double-operand instructions
         js.append(vp.Job("msp430_ref.op%x" % part, "msp430_ref.cpp", {"PART": part}, max_paths=500000, timeout=420 if tier == "quick" else 2400,
                          allow_partial=True, min_completed=4, max_violations=60))
+    js.append(vp.Job("msp430_run.ret", "msp430_run.cpp", {}, max_paths=100000, timeout=420, min_completed=2))
+    js.append(vp.Job("msp430_run.break_io", "msp430_run.cpp", {"BREAK_IO": None}, max_paths=100000, timeout=420, min_completed=2))
     return js
 def main(tier):
     return vp.check_property("C14", tier, jobs(tier),
@@ -15,5 +17,5 @@ def main(tier):
         ["PC and SP word aligned, R3 reads as constant generator; word accesses at odd addresses are outside the claim",
          "outside the claim (family-dependent or unspecified in the guide): PUSH.B (upper stack byte), PUSH/CALL with SP as operand, constants/immediates/PC/SR as read-modify-write operand of RRC/RRA/SWPB/SXT, "
          "R3 as destination or destination index, SR as destination of a flag-setting instruction, byte writes to PC, byte forms of SWPB/SXT/CALL, DADD with non-BCD digits (and its V flag), opcodes 0x1301-0x137f",
-         "display off (show=false); the -run loop (termination at the final ret, break_io exit status, cycle totals) is not covered by this check yet",
+         "display off (show=false); -run loop: one routine (mov/add immediates symbolic, one call, final ret) assembled by the real assembler: termination at the final ret, register values, break_io exit status; cycle totals are recorded but not asserted",
          "partial_allowed: each partition explores paths in DFS order until its time budget"])
